@@ -6,6 +6,8 @@ import (
 	"io"
 
 	"github.com/ClickHouse/ch-go/proto"
+
+	"verifharness/oldquery"
 )
 
 // Token is one client packet as the specification sees it.
@@ -55,7 +57,7 @@ func Tokenize(data []byte, rev int, compressed bool, versions map[int]contents) 
 		switch proto.ClientCode(code) {
 		case proto.ClientCodeQuery:
 			var q proto.Query
-			if err := q.DecodeAware(r, rev); err != nil {
+			if err := oldquery.Decode(r, rev, &q); err != nil {
 				return append(out, Token{K: "partial"})
 			}
 			out = append(out, Token{K: "query"})
